@@ -1,1 +1,149 @@
-//! Cue sheet text generator + layout model.
+//! Cue sheet text generator + the layout the text describes (independent model).
+
+use crate::rng::Rng;
+
+pub const SAMPLES_PER_FRAME: u64 = 588;
+
+#[derive(Debug, Clone, PartialEq, Eq)]
+pub struct ModelIndex {
+    pub number: u8,
+    /// absolute position in samples
+    pub position: u64,
+}
+
+#[derive(Debug, Clone, PartialEq, Eq)]
+pub struct ModelTrack {
+    pub number: u8,
+    pub isrc: Option<String>,
+    pub pre_emphasis: bool,
+    pub indices: Vec<ModelIndex>,
+}
+
+#[derive(Debug, Clone, PartialEq, Eq)]
+pub struct CueModel {
+    pub catalog: Option<String>,
+    pub tracks: Vec<ModelTrack>,
+    pub total_samples: u64,
+}
+
+impl CueModel {
+    /// [INDEX 01 of track i, INDEX 01 of track i+1), last one ends at the total
+    pub fn track_ranges(&self) -> Vec<(u64, u64)> {
+        let starts: Vec<u64> = self.tracks.iter().map(|t| t.indices.iter().find(|i| i.number == 1).unwrap().position).collect();
+        let mut out = vec![];
+        for (i, s) in starts.iter().enumerate() {
+            let e = if i + 1 < starts.len() { starts[i + 1] } else { self.total_samples };
+            out.push((*s, e));
+        }
+        out
+    }
+}
+
+pub fn msf(position_samples: u64) -> String {
+    let frames = position_samples / SAMPLES_PER_FRAME;
+    format!("{:02}:{:02}:{:02}", frames / 75 / 60, (frames / 75) % 60, frames % 75)
+}
+
+#[derive(Debug, Clone, Copy, PartialEq, Eq)]
+pub struct TextStyle {
+    pub crlf: bool,
+    pub indent: bool,
+    pub trailing_blanks: bool,
+    pub final_newline: bool,
+    pub noise_lines: bool,
+    pub quote_catalog: bool,
+    pub quote_isrc: bool,
+    pub dashed_isrc: bool,
+}
+
+fn isrc(rng: &mut Rng) -> String {
+    let letters = b"ABCDEFGHIJKLMNOPQRSTUVWXYZ";
+    let alnum = b"ABCDEFGHIJKLMNOPQRSTUVWXYZ0123456789";
+    let mut s = String::new();
+    for _ in 0..2 {
+        s.push(*rng.pick(letters) as char);
+    }
+    for _ in 0..3 {
+        s.push(*rng.pick(alnum) as char);
+    }
+    for _ in 0..7 {
+        s.push((b'0' + rng.below(10) as u8) as char);
+    }
+    s
+}
+
+/// Generates a well-formed cue sheet (for a stream that is a whole number of CD
+/// sectors long) and the layout it describes.
+pub fn generate(rng: &mut Rng, style: TextStyle, max_tracks: usize, long_disc: bool) -> (String, CueModel) {
+    let ntracks = rng.usize(1, max_tracks.clamp(1, 99));
+    let mut pos_frames: u64 = 0; // in CD frames (1/75 s)
+    let mut tracks = vec![];
+    let step_max = if long_disc { 75 * 60 * 40 } else { 75 * 60 * 3 };
+    for t in 0..ntracks {
+        let has_pregap = rng.chance(1, 3);
+        let extra = match rng.below(6) {
+            0 => rng.usize(1, 98), // many indices
+            1 => 98,
+            _ => rng.usize(0, 3),
+        };
+        let mut indices = vec![];
+        let mut number = if has_pregap { 0u8 } else { 1u8 };
+        let count = (if has_pregap { 2 } else { 1 }) + extra;
+        let count = count.min(if has_pregap { 100 } else { 99 });
+        for k in 0..count {
+            if !(t == 0 && k == 0) {
+                pos_frames += rng.range(1, step_max as i64) as u64;
+            }
+            indices.push(ModelIndex { number, position: pos_frames * SAMPLES_PER_FRAME });
+            number += 1;
+        }
+        tracks.push(ModelTrack {
+            number: (t + 1) as u8,
+            isrc: if rng.chance(1, 2) { Some(isrc(rng)) } else { None },
+            pre_emphasis: rng.chance(1, 3),
+            indices,
+        });
+    }
+    pos_frames += rng.range(1, step_max as i64) as u64;
+    let total_samples = pos_frames * SAMPLES_PER_FRAME;
+    let catalog = if rng.chance(1, 2) { Some((0..13).map(|_| (b'0' + rng.below(10) as u8) as char).collect::<String>()) } else { None };
+    // text
+    let nl = if style.crlf { "\r\n" } else { "\n" };
+    let tb = |rng: &mut Rng| if style.trailing_blanks { [" ", "  ", "\t", ""][rng.below(4) as usize] } else { "" };
+    let ind = |n: usize| if style.indent { " ".repeat(n) } else { String::new() };
+    let mut lines: Vec<String> = vec![];
+    if style.noise_lines {
+        lines.push("REM GENRE \"Test\"".into());
+        lines.push("PERFORMER \"Somebody\"".into());
+        lines.push("TITLE \"A Disc\"".into());
+    }
+    if let Some(c) = &catalog {
+        lines.push(if style.quote_catalog { format!("CATALOG \"{c}\"") } else { format!("CATALOG {c}") });
+    }
+    lines.push("FILE \"audio.flac\" FLAC".into());
+    for t in &tracks {
+        lines.push(format!("{}TRACK {:02} AUDIO", ind(2), t.number));
+        if style.noise_lines {
+            lines.push(format!("{}TITLE \"Track {}\"", ind(4), t.number));
+        }
+        if let Some(i) = &t.isrc {
+            let shown = if style.dashed_isrc { format!("{}-{}-{}-{}", &i[0..2], &i[2..5], &i[5..7], &i[7..12]) } else { i.clone() };
+            lines.push(if style.quote_isrc { format!("{}ISRC \"{shown}\"", ind(4)) } else { format!("{}ISRC {shown}", ind(4)) });
+        }
+        if t.pre_emphasis {
+            lines.push(format!("{}FLAGS PRE", ind(4)));
+        }
+        for i in &t.indices {
+            lines.push(format!("{}INDEX {:02} {}", ind(4), i.number, msf(i.position)));
+        }
+    }
+    let mut text = String::new();
+    for (k, l) in lines.iter().enumerate() {
+        text.push_str(l);
+        text.push_str(tb(rng));
+        if k + 1 < lines.len() || style.final_newline {
+            text.push_str(nl);
+        }
+    }
+    (text, CueModel { catalog, tracks, total_samples })
+}
